@@ -699,7 +699,14 @@ impl<Front: SocketHandler> ConnectionH1<Front> {
                             kawa::StatusLine::Response { code, .. }
                                 if (100..200).contains(&code) || code == 204 || code == 304
                         );
-                    if stream.context.keep_alive_frontend && !close_delimited {
+                    // The response can be complete before the request is: a backend may
+                    // answer from the request head (HEAD, an early 4xx) while part of the
+                    // body the head announced has not been read from the client yet.
+                    // Resetting the slot now would parse that rest of the body as the
+                    // next request of the connection (RFC 9112 §9.3: a server that does
+                    // not read the whole request closes the connection).
+                    let request_complete = stream.front.is_terminated();
+                    if stream.context.keep_alive_frontend && !close_delimited && request_complete {
                         self.timeout_container.reset();
                         if let StreamState::Linked(token) = old_state {
                             endpoint.end_stream(token, stream_id, context);
